@@ -6,6 +6,10 @@ package nutsdb
 func H_C08_Reopen() {
 	vSetup()
 	defer vCleanup()
+	// Close/Open replays the same log through the same structures: a read that failed before Close must
+	// fail after Open and vice versa ("empty" and "error" are not interchangeable here)
+	vObsStrict = true
+	defer func() { vObsStrict = false }()
 	mode := EntryIdxMode(vParam("mode"))
 	rw := RWMode(vParam("rw"))
 	segs := []int64{4096, 60}
